@@ -27,9 +27,9 @@ CLASSES = {
     "SmoothConvexLipschitzFunction": dict(kind="f", params=[{"L": 1.0, "M": 1.0}, {"L": 2.0, "M": 0.5}, {"L": 1.0, "M": 3.0}], step="gd",
                                           metrics=["fval", "dist", "grad"]),
     "ConvexQGFunction": dict(kind="f", params=[{"L": 1.0}, {"L": 2.0}], step="gd", metrics=["fval"]),
-    "RsiEbFunction": dict(kind="f", params=[{"mu": 0.1, "L": 1.0}, {"mu": 0.5, "L": 1.0}], step="gd_rsi", metrics=["dist"]),
-    "ConvexIndicatorFunction": dict(kind="f", params=[{"D": INF}, {"D": 1.0}], step="prox", metrics=["dist"]),
-    "ConvexSupportFunction": dict(kind="f", params=[{"M": INF}, {"M": 1.0}], step="prox", metrics=["dist", "fval"]),
+    "RsiEbFunction": dict(kind="f", params=[{"mu": 0.1, "L": 1.0}, {"mu": 0.5, "L": 1.0}, {"mu": 0.5, "L": 2.0}], step="gd_rsi", metrics=["dist"]),
+    "ConvexIndicatorFunction": dict(kind="f", params=[{"D": INF}, {"D": 1.0}, {"D": 2.0}], step="prox", metrics=["dist"]),
+    "ConvexSupportFunction": dict(kind="f", params=[{"M": INF}, {"M": 1.0}, {"M": 2.0}], step="prox", metrics=["dist", "fval"]),
     "BlockSmoothConvexFunction": dict(kind="f", params=[{"L": [1.0, 2.0]}, {"L": [1.0]}, {"L": [1.0, 2.0, 4.0]}], step="block",
                                       metrics=["fval", "dist"]),
     "SmoothStronglyConvexQuadraticFunction": dict(kind="f", params=[{"mu": 0.1, "L": 1.0}, {"mu": 0.0, "L": 2.0}], step="gd",
@@ -47,7 +47,7 @@ CLASSES = {
     "NonexpansiveOperator": dict(kind="fix", params=[{}], step="km", metrics=["dist", "grad"]),
     "SkewSymmetricLinearOperator": dict(kind="lin0", params=[{"L": 1.0}, {"L": 2.0}], step="gd0", metrics=["dist", "grad"]),
     "StronglyMonotoneOperator": dict(kind="o", params=[{"mu": 0.1}, {"mu": 1.0}], step="prox", metrics=["dist", "grad"]),
-    "SymmetricLinearOperator": dict(kind="lin0", params=[{"mu": 0.1, "L": 1.0}, {"mu": -1.0, "L": 1.0}], step="gd0",
+    "SymmetricLinearOperator": dict(kind="lin0", params=[{"mu": 0.1, "L": 1.0}, {"mu": -1.0, "L": 1.0}, {"mu": 0.5, "L": 2.0}], step="gd0",
                                     metrics=["dist", "grad"]),
 }
 CLASS_NAMES = list(CLASSES)
